@@ -21,4 +21,9 @@ rm -f ppl_c_hh_blob
 cp $REPO/interfaces/C/ppl_c_header.h ppl_c.h
 cp $REPO/interfaces/C/ppl_c_version.h .
 cp $REPO/interfaces/C/ppl_c_implementation_common.cc $REPO/interfaces/C/ppl_c_implementation_common_defs.hh $REPO/interfaces/C/ppl_c_implementation_common_inlines.hh .
+
+# ppl.hh: the amalgamated header in src/ is a build product that does not follow edits of the individual
+# headers; the interface must be compiled against the CURRENT headers, exactly like the library objects
+# (src/ppl_header.hh is the un-expanded source of ppl.hh: same text with the includes left as includes)
+echo '#include "ppl_header.hh"' > ppl.hh
 ls ppl_c_*.cc | wc -l
